@@ -405,13 +405,16 @@ def cases(rng, tier):
         if j == 0:
             c["seed_v"] = 0
         yield c
+    for _ in range(3 if tier == "quick" else 30):   # nucleation in the final step of the run
+        yield c01._last_step(rng, tier)
     for _ in range(4 if tier == "quick" else 40):   # recorded subsets given as unsorted int lists
         yield c01._subset(rng, tier)
     n, nh, nt = (42, 8, 6) if tier == "quick" else (1300, 120, 50)
     for _ in range(n):
         yield _case(rng, tier)
     for j in range(nh):   # object histories (second run of a re-configured object)
-        yield c01._history(rng, tier, force="rate_fine" if j < 3 else "shape" if j < 5 else None)
+        yield c01._history(rng, tier, force="rate_fine" if j < 3 else "shape" if j < 5 else None,
+                           how=("mutate" if j % 2 == 0 else "assign") if j < 3 else None)
     for _ in range(nt):   # nucleation at a tiny supercooling
         yield c01._tiny(rng, tier)
 
